@@ -2,6 +2,7 @@ import TxVerif.Props.C04
 import TxVerif.Tie.Skeleton
 import TxVerif.Props.C04C07Engine
 import TxVerif.Props.C03History
+import TxVerif.Props.Lifetime
 open TxVerif
 #print axioms alloc_fresh_c04
 #print axioms alloc_not_in_use
@@ -23,3 +24,10 @@ open TxVerif
 #print axioms c04o_owned_never_returned
 #print axioms c04o_alloc_below_limit
 #print axioms c04_history_alloc_fresh
+#print axioms lifetime_invariant
+#print axioms lifetime_invariant_created
+#print axioms c04u_alloc_fresh
+#print axioms c04u_owned_never_returned
+#print axioms c04u_alloc_no_extension
+#print axioms lifetime_alloc_fresh
+#print axioms lifetime_alloc_no_extension
